@@ -1782,4 +1782,64 @@ theorem isInteger_of_integer (bits n : Nat) (hf : isFinite bits = true)
     have hmod : m % 2 ^ (-e).toNat = 0 := by rw [hn]; exact Nat.mul_mod_left _ _
     simp [hmod, hpos]
 
+
+/-- the integer-valued double `n ≥ 1` is recovered by correctly rounded conversion of `10n/10` -/
+theorem ofRat_ten_bits (bits n : Nat) (hb : bits < 2 ^ 64) (hf : isFinite bits = true) (hpos : 0 < n)
+    (hn : (ratOf (decompose bits).2.1 (decompose bits).2.2).1 = n * (ratOf (decompose bits).2.1 (decompose bits).2.2).2) :
+    ofRat (isNeg bits) (10 * n) 10 = bits := by
+  have hfr := fracField_lt bits
+  have hexp : expField bits < 2048 := Nat.mod_lt _ (by omega)
+  have hfin : expField bits ≠ 2047 := by simpa [isFinite] using hf
+  have hbf := bits_fields bits hb
+  have hn0 : n ≠ 0 := by omega
+  unfold decompose ratOf at hn
+  simp only at hn
+  by_cases he0 : expField bits = 0
+  · -- subnormal or zero: value < 1, cannot be a positive integer
+    exfalso
+    simp only [he0, beq_self_eq_true, if_true] at hn
+    have : ¬ ((-1074 : Int) ≥ 0) := by decide
+    simp only [this, if_false] at hn
+    generalize hK : (-(-1074 : Int)).toNat = K at hn
+    have hK' : 52 ≤ K := by rw [← hK]; decide
+    have hbig : 2 ^ 52 ≤ 2 ^ K := Nat.pow_le_pow_right (by omega) hK'
+    have : 2 ^ K ≤ n * 2 ^ K := Nat.le_mul_of_pos_left _ hpos
+    generalize 2 ^ K = B at *
+    omega
+  · have hb0 : (expField bits == 0) = false := by simpa using he0
+    simp only [hb0, Bool.false_eq_true, if_false] at hn
+    have hm52 : 2 ^ 52 ≤ fracField bits + 2 ^ 52 := by omega
+    have hm53 : fracField bits + 2 ^ 52 < 2 ^ 53 := by omega
+    have hm0 : fracField bits + 2 ^ 52 ≠ 0 := by omega
+    have hlogm : Nat.log2 (fracField bits + 2 ^ 52) = 52 := (Nat.log2_eq_iff hm0).2 ⟨hm52, hm53⟩
+    by_cases hge : (expField bits : Int) - 1075 ≥ 0
+    · simp only [hge, if_true, Nat.mul_one] at hn
+      generalize hk : ((expField bits : Int) - 1075).toNat = k at hn
+      have hlog : Nat.log2 n = 52 + k := by rw [← hn, log2_mul_two_pow _ _ hm0, hlogm]
+      have := ofRat_ten (isNeg bits) n (fracField bits + 2 ^ 52) hpos (by omega)
+        (by
+          rw [hlog]
+          by_cases hk0 : k = 0
+          · subst hk0; simp at hn ⊢; omega
+          · have : ¬ (52 + k ≤ 52) := by omega
+            simp only [this, if_false]
+            rw [show 52 + k - 52 = k by omega]; exact hn.symm)
+      rw [this, hlog]
+      generalize (if isNeg bits = true then 2 ^ 63 else 0) = sg at *
+      have : 52 + k + 1023 = expField bits := by omega
+      rw [this]; omega
+    · simp only [hge, if_false] at hn
+      generalize hk : (-((expField bits : Int) - 1075)).toNat = k at hn
+      have hlog : 52 = Nat.log2 n + k := by rw [← hlogm, hn, log2_mul_two_pow _ _ hn0]
+      have := ofRat_ten (isNeg bits) n (fracField bits + 2 ^ 52) hpos (by omega)
+        (by
+          have : Nat.log2 n ≤ 52 := by omega
+          simp only [this, if_true]
+          rw [show 52 - Nat.log2 n = k by omega]; exact hn)
+      rw [this]
+      generalize (if isNeg bits = true then 2 ^ 63 else 0) = sg at *
+      have : Nat.log2 n + 1023 = expField bits := by omega
+      rw [this]; omega
+
+
 end PV.C17
